@@ -392,6 +392,10 @@ def veq(a, b):
         return veq(b, a)
     if isinstance(a, ObjV) and isinstance(b, ObjV) and "__id__" in a.fields and "__id__" in b.fields:
         return Z(a.fields["__id__"]) == Z(b.fields["__id__"])
+    if isinstance(a, SetV) and isinstance(b, SetV) and getattr(a, "elements", None) is not None and getattr(b, "elements", None) is not None:
+        # both sets are given by explicit element lists (concrete mode): mutual inclusion
+        parts = [B(b.contains(e)) for e in a.elements] + [B(a.contains(e)) for e in b.elements]
+        return z3.And(parts) if parts else z3.BoolVal(True)
     if isinstance(a, SetV) and isinstance(b, SetV):
         if a.arity != b.arity:
             raise Unsupported("comparison of sets of different element shapes")
